@@ -12,8 +12,8 @@ import c18_threads
 
 PROPERTY = 'C18'
 MANIFEST = {
- 'level_text': 'Lean 4 theorems, kernel-checked, in two layers. (1) A model of supybot.schedule.Schedule, for every sequence of addEvent/addPeriodicEvent/removeEvent/rescheduleEvent/run/reset calls and clock advances, every program of event functions that themselves add, remove, reschedule, add periodic events or raise while running, and every way the heap resolves ties: the name invariant (heap names = keys of events, no name twice) holds in every reachable state and therefore run() never raises; registrations = fired + removed + discarded + still scheduled as multisets with pairwise distinct registration ids (each event fires at most once, a removed event never fires, everything that fired was registered); nothing fires before its due time has passed, each iteration fires an entry of minimal due time, and when run() returns nothing due is left; a fired event carries the function and arguments of its registration, also after rescheduleEvent (repaired: it dropped them), which moves exactly that entry; a raising function ends only its own body; a periodic wrapper with occurrences left re-registers itself whether or not its function raised. (2) A model of the Scheduler plugin on top (event table with its str(id)/name keys and the int-vs-str naming discipline, add/remind/remove/repeat/list, _flush and the pickle, die — repaired: it now takes the saved events out of the schedule —, _restoreEvents with kept ids and the already-scheduled test, load/unload/reload/restart, other plugins scheduling, run): an invariant of every reachable state (every scheduled closure belongs to the live instance and has its table entry, every table entry has its closure scheduled under int(key) or the name, ids ascending and below the counter, the pickle well formed), hence no command runs for a dead instance or misses its entry; reload with events pending leaves the table unchanged and schedules exactly one entry per pending event. Both layers are tied to /repo by differential runs: seeded programs/operation sequences on the real Schedule object, and seeded command sequences (scheduler add/remind/remove/repeat/list, reload/unload/load Scheduler by an owner over IRC, restarts, clock advances) on a live bot with the virtual clock; the heap\'s choices are fed to the models, which check each is a minimum; the property statement is evaluated directly on the implementation (for the plugin: through the replies — every added, never removed command runs exactly once) to produce replays.',
- 'level_note': 'Trusted: Lean kernel; axioms propext/Classical.choice/Quot.sound only; CPython heapq pops an entry of minimal due time (checked per pop, not proved of heapq); str(int)/int(str) round trip for event ids (keys are modelled as Key.id n / Key.name s); the plugin model works on the abstract schedule justified by name_invariant (heap and events dict merged); the correspondence harnesses (generator quality bounds what they see); integer-valued virtual clock frozen during run(). Modelled: schedule.py completely except the lock; plugins/Scheduler/plugin.py: add, remind (as add), remove, repeat (--delay), list, _flush, die, _restoreEvents (incl. _getNextRunIn), the command/periodic closures with the instance that made them. Not modelled: threads, unreadable or foreign pickles, old-format pickles without first_run/network, the text of the commands being replayed (C13/C14), non-Exception exceptions, event functions calling addPeriodicEvent(now=True) from inside a running event.',
+ 'level_text': 'Lean 4 theorems, kernel-checked, in two layers. (0) CPython heapq as used by the scheduler: heappush and heapify establish/keep the heap invariant, heappop returns an entry of minimal due time and leaves a heap that with it is a permutation of the old one, hence the choice of the heap is always a pick the scheduler model accepts. (1) A model of supybot.schedule.Schedule, for every sequence of addEvent/addPeriodicEvent/removeEvent/rescheduleEvent/run/reset calls and clock advances, every program of event functions that themselves add, remove, reschedule, add periodic events or raise while running, and every way the heap resolves ties: the name invariant (heap names = keys of events, no name twice) holds in every reachable state and therefore run() never raises; registrations = fired + removed + discarded + still scheduled as multisets with pairwise distinct registration ids (each event fires at most once, a removed event never fires, everything that fired was registered); nothing fires before its due time has passed, each iteration fires an entry of minimal due time, and when run() returns nothing due is left; a fired event carries the function and arguments of its registration, also after rescheduleEvent (repaired: it dropped them), which moves exactly that entry; a raising function ends only its own body; a periodic wrapper with occurrences left re-registers itself whether or not its function raised; threads: the placement of the lock is extracted and for every interleaving of critical sections (addEvent, removeEvent, iterations of run(), reset, by any threads) the invariant holds at every lock release, run() never raises and never fires early, registrations stay exactly-once (after three repairs of the lock placement). (2) A model of the Scheduler plugin on top (event table with its str(id)/name keys and the int-vs-str naming discipline, add/remind/remove/repeat/list, _flush and the pickle, die — repaired: it now takes the saved events out of the schedule —, _restoreEvents with kept ids and the already-scheduled test, load/unload/reload/restart, other plugins scheduling, run): an invariant of every reachable state and the whole-history law added = ran + removed + pending, each added never removed one-shot command runs exactly once (every scheduled closure belongs to the live instance and has its table entry, every table entry has its closure scheduled under int(key) or the name, ids ascending and below the counter, the pickle well formed), hence no command runs for a dead instance or misses its entry; reload with events pending leaves the table unchanged and schedules exactly one entry per pending event. Both layers are tied to /repo by differential runs: seeded programs/operation sequences on the real Schedule object, and seeded command sequences (scheduler add/remind/remove/repeat/list, reload/unload/load Scheduler by an owner over IRC, restarts, clock advances) on a live bot with the virtual clock; the heap\'s choices are fed to the models, which check each is a minimum; the property statement is evaluated directly on the implementation (for the plugin: through the replies — every added, never removed command runs exactly once) to produce replays.',
+ 'level_note': 'Trusted: Lean kernel; axioms propext/Classical.choice/Quot.sound only; heapq is modelled (Heap.lean: heappush/heappop/heapify with _siftdown/_siftup in swap form, equal list after every call to the hole-moving reference code and to the C module the bot uses — compared on every run) and proved to keep the heap invariant and to pop a minimum, so the picks fed to the scheduler model are valid by theorem (heap_choice_is_valid_pick) and additionally checked per pop; str(int)/int(str) round trip for event ids (keys are modelled as Key.id n / Key.name s); the plugin model works on the abstract schedule justified by name_invariant (heap and events dict merged); the correspondence harnesses (generator quality bounds what they see); integer-valued virtual clock frozen during run(). Modelled: schedule.py completely except the lock; plugins/Scheduler/plugin.py: add, remind (as add), remove, repeat (--delay), list, _flush, die, _restoreEvents (incl. _getNextRunIn), the command/periodic closures with the instance that made them. Not modelled: unreadable or foreign pickles, old-format pickles without first_run/network, the text of the commands being replayed (C13/C14), non-Exception exceptions, event functions calling addPeriodicEvent(now=True) from inside a running event.',
  'technique': 'Lean 4 proof (induction over operation sequences and heap choices with invariants) + differential correspondence',
  'design_ref': 'DESIGN.md §6 C18',
 }
@@ -23,7 +23,8 @@ THEOREMS = ['C18.name_invariant', 'C18.run_never_raises', 'C18.conservation', 'C
             'C18.periodic_recurs', 'C18.args_preserved', 'C18.scheduled_match_registration',
             'C18.reschedule_moves_entry', 'C18.plugin_invariant', 'C18.plugin_no_stale_runs',
             'C18.reload_keeps_events', 'C18.reload_each_exactly_once', 'C18.load_restores_invariant',
-            'C18.lock_placement_ok', 'C18.threads_safe', 'C18.plugin_conservation', 'C18.plugin_exactly_once']
+            'C18.lock_placement_ok', 'C18.threads_safe', 'C18.plugin_conservation', 'C18.plugin_exactly_once',
+            'C18.heap_push_ok', 'C18.heap_heapify_ok', 'C18.heap_pop_ok', 'C18.heap_choice_is_valid_pick']
 TRUSTED = ['Lean 4.33.0 kernel; axioms ⊆ {propext, Classical.choice, Quot.sound}',
            'CPython heapq.heappop returns an entry with minimal due time (mytuple compares due times only); checked on every pop of the run',
            'harness/c18.py generators, instrumentation (virtual clock, recording heapq proxy, recording addEvent/removeEvent wrappers, instrumented event functions), canonicalisation; hex line protocol']
@@ -508,6 +509,65 @@ def run_plugin_case(ops, kind):
     finally:
         mod.heapq = saved
 
+def gen_heap_ops(r):
+    ops = []
+    nid = 0
+    for _ in range(r.randint(2, 40)):
+        x = r.random()
+        if x < 0.5:
+            ops.append(['hpush', r.choice([0, 1, 2, 3, 3, 5, 8, 8, 13]), nid]); nid += 1
+        elif x < 0.8:
+            ops.append(['hpop'])
+        elif x < 0.9:
+            ops.append(['hremove'])          # removeEvent: filter one name out, then heapify
+        else:
+            ops.append(['hshuffle', r.randint(0, 10 ** 6)])   # any list, then heapify
+    return ops
+
+def run_heap_case(ops, kind):
+    """the real heapq (the module supybot.schedule uses) with schedule.mytuple against Heap.lean"""
+    import random
+    mod, drivers, clk = env()
+    hq = mod.heapq
+    T = mod.mytuple
+    h = []
+    obs = []; lines = ['hset\t-']
+    obs.append('-')
+    fails = []; tags = set()
+    enc = lambda l: ';'.join('%d/%d' % (x[0], x[1]) for x in l) or '-'
+    def is_heap(l):
+        return all(not (l[j][0] < l[(j - 1) >> 1][0]) for j in range(1, len(l)))
+    for i, op in enumerate(ops):
+        k = op[0]
+        if k == 'hpush':
+            hq.heappush(h, T((op[1], op[2], [], {})))
+            lines.append('hpush\t%d/%d' % (op[1], op[2])); obs.append(enc(h)); tags.add('h-push')
+        elif k == 'hpop':
+            if h:
+                least = min(x[0] for x in h)
+                e = hq.heappop(h)
+                if e[0] != least:
+                    fails.append((i, 'heappop returned an entry due %d while one due %d was in the heap' % (e[0], least)))
+                obs.append('%d/%d|%s' % (e[0], e[1], enc(h))); tags.add('h-pop')
+            else:
+                obs.append('E'); tags.add('h-pop-empty')
+            lines.append('hpop')
+        else:
+            if k == 'hremove' and h:
+                victim = h[len(h) // 2][1]
+                h = [x for x in h if x[1] != victim]; tags.add('h-remove')
+            else:
+                random.Random(op[1] if len(op) > 1 else 0).shuffle(h); tags.add('h-shuffle')
+            lines.append('hset\t' + enc(h)); obs.append(enc(h))
+            hq.heapify(h)
+            lines.append('hify'); obs.append(enc(h))
+        if not is_heap(h):
+            fails.append((i, 'after %s the list is not a heap: %s' % (k, enc(h))))
+    ok = not fails
+    msg = '' if ok else 'op #%d %r: %s' % (fails[0][0], ops[fails[0][0]], fails[0][1])
+    c = Case({'heap_ops': ops}, impl='\n'.join(obs), oracle_ok=ok, oracle_msg=msg, tags=tuple(sorted(tags)), kind=kind)
+    return c, lines
+
 def run_thread_case(ops, kind):
     mod, drivers, clk = env()
     saved = mod.heapq
@@ -518,9 +578,14 @@ def run_thread_case(ops, kind):
     finally:
         mod.heapq = saved
 
-def explore(stream, n, maxlen, corpus=(), budget=75.0, n_plugin=0, plugin_corpus=(), n_thread=0, thread_corpus=()):
+def explore(stream, n, maxlen, corpus=(), budget=75.0, n_plugin=0, plugin_corpus=(), n_thread=0, thread_corpus=(), n_heap=0):
     r = rng.make(stream)
     cases = []; lines = []; spans = []
+    rh = rng.make(stream + '-heap')
+    for i in range(n_heap):
+        c, ml = run_heap_case(gen_heap_ops(rh), 'heap')
+        spans.append((c, len(lines), len(ml), 0))
+        lines.extend(ml); cases.append(c)
     rt = rng.make(stream + '-threads')
     for i in range(len(thread_corpus) + n_thread):
         ops = thread_corpus[i] if i < len(thread_corpus) else c18_threads.gen_ops(rt)
@@ -563,6 +628,9 @@ def fill_model(cases, lines, spans):
         o = outs[start + skip:start + ln]          # skip the `prog` line of a core case
         if 'plugin_ops' in c.input:
             c.model = '\n'.join(c18_plugin.canon_model(x) for x in o)
+            continue
+        if 'heap_ops' in c.input:
+            c.model = '\n'.join(o)
             continue
         c.model = '\n'.join(canon_model(x) for x in o)
         if any(x == 'invalid' for x in o):
@@ -713,6 +781,8 @@ def shrink_thread_case(c, budget=200):
     return c
 
 def shrink_case(c):
+    if 'heap_ops' in c.input:
+        return c
     if 'thread_ops' in c.input:
         return shrink_thread_case(c)
     if 'plugin_ops' in c.input:
@@ -729,7 +799,8 @@ def run(ctx):
     n, maxlen = (80000, 60) if ctx.thorough else (4000, 40)
     cases, lines, spans = explore('c18', n, maxlen, load_corpus(), budget=(780.0 if ctx.thorough else 75.0),
                                   n_plugin=(2500 if ctx.thorough else 220), plugin_corpus=load_plugin_corpus(),
-                                  n_thread=(20000 if ctx.thorough else 1500), thread_corpus=load_thread_corpus())
+                                  n_thread=(20000 if ctx.thorough else 1500), thread_corpus=load_thread_corpus(),
+                                  n_heap=(40000 if ctx.thorough else 1500))
     if build.driver_ok:
         fill_model(cases, lines, spans)
     for i, c in enumerate(cases):
@@ -762,6 +833,12 @@ def replay(ctx, path):
     c = d.get('case') or d.get('first_disagreement')
     if not c:
         print(json.dumps(d, indent=1)[:3000]); return 0
+    if 'heap_ops' in c['input']:
+        case, _ = run_heap_case(c['input']['heap_ops'], 'replay')
+        print(json.dumps(c['input']['heap_ops']))
+        print('recorded oracle message:', c.get('oracle_msg'))
+        print('implementation now: oracle_ok=%s %s' % (case.oracle_ok, case.oracle_msg))
+        return 0 if case.oracle_ok else 1
     if 'thread_ops' in c['input']:
         ops = c['input']['thread_ops']
         case, _ = run_thread_case(ops, 'replay')
